@@ -182,6 +182,10 @@ def carver_kwargs(case, vals):
     kw.update(feature_kwargs(case["kind"], vals))
     if case.get("vocabulary"):  # the user lists the known categories of a NON-ordinal feature
         kw["values_orders"] = {"f": sorted(vals)}
+    if case.get("pregroup"):  # a previous discretization handed over (ChainedDiscretizer-like): the two first categories are one group
+        from AutoCarver.discretizers import GroupedList
+
+        kw["values_orders"] = {"f": GroupedList({vals[1]: [vals[0], vals[1]], **{v: [v] for v in vals[2:]}})}
     if case.get("companion") == "id":
         kw["qualitative_features"] = list(kw.get("qualitative_features", [])) + ["g"]
     if case.get("companion") == "q2":
